@@ -59,6 +59,11 @@ def mul(n, p):
     return _aff(q)
 
 
+def neg(p):
+    x, y = p
+    return ((P - x) % P, y)
+
+
 def enc(p):
     x, y = p
     return (y | ((x & 1) << 255)).to_bytes(32, 'little')
